@@ -151,6 +151,7 @@ Bytes World::make_packet(const J &op)
 		for (size_t i = 24; i < len; i++) p[i] = (uint8_t)(splitmix64(ser * 1000003 + i / 8) >> (8 * (i % 8)));
 		size_t F = 0;
 		if (op.gets("align") == "auto") { UserView v; int uid = clients.empty() ? 0 : std::max(0, clients[0].userid); if (peek_user(uid, v)) F = (size_t)v.fragsize; }
+		else if (op.gets("align") == "auto_up") F = up_chunk;
 		else F = (size_t)op.geti("align", 0);
 		size_t unit = F >= 16 && F <= 4000 ? F : 16 + (size_t)(ser % 48);
 		size_t pos = F >= 16 && F <= 4000 ? F - 7 : 40;
